@@ -73,3 +73,33 @@ Proof.
   exists (mk8 (Q2Qc (3 # 5)) 0 0 0), (mk8 (Q2Qc (4 # 5)) 0 0 0).
   repeat split; vm_compute; f_equal; apply Qc_is_canon; reflexivity.
 Qed.
+
+(* ---- the two reference semantics are one (Sim/DensLinkProofs.v) ----
+   The checks compare Cirq with the ensemble semantics `exec` (pure-state branches) and with the density semantics `dexec`
+   (Kraus operators do not branch).  For every operation list over any register shape the density semantics is the
+   ensemble semantics averaged: the final density operator is the weighted sum of the outer products of the branches ... *)
+From VF Require Import Sim.Ref Sim.DensLink Sim.DensLinkProofs.
+Theorem C09_dexec_rho_ensemble : forall K (O : Ops K), Laws O -> forall sh ops init,
+  Forall (op_ok sh) ops -> length init = size sh ->
+  dexec_rho O sh ops init = concat (ensemble_rho O (size sh) (exec O sh ops init)).
+Proof. exact @dexec_rho_ensemble. Qed.
+Print Assumptions C09_dexec_rho_ensemble.
+(* ... branch group by branch group (same weights and records, density = sum of the group's outer products) *)
+Theorem C09_dexec_tracks_exec : forall K (O : Ops K), Laws O -> forall sh ops init,
+  Forall (op_ok sh) ops -> length init = length (enum sh) ->
+  tracks O sh (dexec O sh ops init) (exec O sh ops init).
+Proof. exact @dexec_tracks_exec. Qed.
+Print Assumptions C09_dexec_tracks_exec.
+(* the key step: conjugating |psi><psi| by M on the row axes and conj M on the column axes is |M psi><M psi| *)
+Theorem C09_dm_apply_outer : forall K (O : Ops K), Laws O -> forall m dims ax sh (psi : list K),
+  length psi = length (enum sh) -> axes_ok sh dims ax ->
+  dm_apply O m dims ax sh (concat (outer O psi)) = concat (outer O (apply_tab O m dims ax sh psi)).
+Proof. exact @dm_apply_outer. Qed.
+Print Assumptions C09_dm_apply_outer.
+(* a channel on a pure state gives the sum over its Kraus operators *)
+Theorem C09_dm_kraus_outer : forall K (O : Ops K), Laws O -> forall ks dims ax sh (psi : list K),
+  length psi = length (enum sh) -> axes_ok sh dims ax ->
+  dm_kraus O ks dims ax sh (concat (outer O psi))
+  = vsum O (map (fun _ => k0 O) (concat (outer O psi))) (map (fun k => concat (outer O (apply_tab O k dims ax sh psi))) ks).
+Proof. exact @dm_kraus_outer. Qed.
+Print Assumptions C09_dm_kraus_outer.
